@@ -23,6 +23,8 @@ func init() {
 			"C27.R1 WMC: positive verdict stores only in two functions",
 			"C27.R2 MPT: verdict flags gated on digest comparison and signature verification success",
 			"C27.R4 shape: the excluded /Contents gap is compared in full",
+			"C27.R5 dominance: the loop over the SignerInfos stops early only when validateAll is false",
+			"C27.R6 flow: ValidateSignatures hands its own reader parameter to everything that reads the signed ranges",
 			"C27.R3 MPT/flow: signed bytes = both byte ranges, after range and gap validation",
 		},
 		Assumptions: []string{"crypto/x509, crypto/rsa etc. verify what they are given"},
@@ -70,6 +72,10 @@ func runC27(c *Ctx) {
 	r.MinInst["C27.R3"] = 3
 	r.MinInst["C27.R4"] = 1
 	checkGapComparedInFull(c)
+	r.MinInst["C27.R5"] = 1
+	checkAllSignersAssessed(c)
+	r.MinInst["C27.R6"] = 2
+	checkValidatedReaderIsTheCallers(c)
 	valid := modelConst(p, "SignatureStatusValid")
 	mFalse := modelConst(p, "False")
 	if valid == nil || mFalse == nil {
@@ -1388,5 +1394,199 @@ func checkHistoricalWithdrawsBoth(c *Ctx) {
 	}
 	if n == 0 {
 		r.Bad("C28.R6", fid, "withdrawals", p.Pos(fn.Pos()), "UNRESOLVED-ANCHOR: no return after the withdrawals")
+	}
+}
+
+// ---------------- C27.R5 / R6 (round 4 seeds C27-G, C27-H) ----------------
+
+// R5: "validate all" means every SignerInfo of the message is assessed. In validatePKCS7Signatures every way out of
+// the loop over the signers other than its end and error returns is behind the fact that the validateAll parameter
+// is false: a branch on the parameter itself, or on the result of a helper that can only be true when the parameter
+// it is handed is false (every returned value is the constant false or the negation of that parameter).
+func checkAllSignersAssessed(c *Ctx) {
+	p, r := c.P, c.R
+	const fid = "pkg/pdfcpu/sign.validatePKCS7Signatures"
+	fn := p.Func(fid)
+	if fn == nil {
+		r.Bad("C27.R5", fid, "anchor", "", "UNRESOLVED-ANCHOR")
+		return
+	}
+	var all *ssa.Parameter
+	for _, q := range fn.Params {
+		if q.Name() == "validateAll" || q.Name() == "all" {
+			all = q
+		}
+	}
+	if all == nil {
+		r.Bad("C27.R5", fid, "anchor", p.Pos(fn.Pos()), "UNRESOLVED-ANCHOR: no validateAll parameter")
+		return
+	}
+	// edges on which validateAll is known false
+	var notAll []Edge
+	for _, b := range fn.Blocks {
+		if len(b.Instrs) == 0 {
+			continue
+		}
+		ifi, ok := b.Instrs[len(b.Instrs)-1].(*ssa.If)
+		if !ok {
+			continue
+		}
+		cond := ifi.Cond
+		neg := false
+		for {
+			if u, ok := cond.(*ssa.UnOp); ok && u.Op == token.NOT {
+				cond = u.X
+				neg = !neg
+				continue
+			}
+			break
+		}
+		switch x := cond.(type) {
+		case *ssa.Parameter:
+			if x == all {
+				// cond true <=> all (neg: !all)
+				if neg {
+					notAll = append(notAll, Edge{b, 0})
+				} else {
+					notAll = append(notAll, Edge{b, 1})
+				}
+			}
+		case *ssa.Call:
+			callee := staticCallee(x)
+			if callee == nil || len(callee.Blocks) == 0 {
+				continue
+			}
+			for k, a := range x.Call.Args {
+				if a == ssa.Value(all) && k < len(callee.Params) && trueImpliesNotParam(callee, callee.Params[k]) {
+					if neg {
+						notAll = append(notAll, Edge{b, 1})
+					} else {
+						notAll = append(notAll, Edge{b, 0})
+					}
+				}
+			}
+		}
+	}
+	n := 0
+	for _, l := range naturalLoops(fn) {
+		// the loop over the signers: it calls the per-signer verifier
+		has := false
+		for b := range l.blocks {
+			for _, in := range b.Instrs {
+				if call, ok := in.(*ssa.Call); ok {
+					if f := staticCallee(call); f != nil && strings.HasPrefix(f.Name(), "verifyP7Signer") {
+						has = true
+					}
+				}
+			}
+		}
+		if !has {
+			continue
+		}
+		for _, b := range fn.Blocks {
+			if !l.blocks[b] || b == l.header {
+				continue
+			}
+			for si, s := range b.Succs {
+				if l.blocks[s] {
+					continue
+				}
+				errOnly := true
+				blocks := reachableBlocks(s)
+				blocks[s] = true
+				for bb := range blocks {
+					if len(bb.Instrs) == 0 {
+						continue
+					}
+					if ret, ok := bb.Instrs[len(bb.Instrs)-1].(*ssa.Return); ok {
+						if k, ok := returnErrKind(ret); !ok || k != errNonNil {
+							errOnly = false
+						}
+					}
+				}
+				if errOnly {
+					continue
+				}
+				n++
+				construct := fmt.Sprintf("early exit#%d of the signer loop", n)
+				behind := false
+				for _, e := range notAll {
+					if (e.From == b && e.Succ == si) || edgeDominates(e, b) {
+						behind = true
+					}
+				}
+				if behind {
+					r.OK("C27.R5", fid, construct, p.Pos(lastPos(b)), "only when validateAll is false", true)
+				} else {
+					r.Bad("C27.R5", fid, construct, p.Pos(lastPos(b)), "the loop over the SignerInfos can stop early although validateAll may be true: a failing signer that is not first in the message is never assessed, so a tampered document with a co-signer's SignerInfo sorted first is not reported as modified")
+				}
+			}
+		}
+	}
+	if n == 0 {
+		r.OK("C27.R5", fid, "early exits of the signer loop", p.Pos(fn.Pos()), "none: every signer is assessed", false)
+	}
+}
+
+// R6: the bytes that are hashed are the bytes the caller asked about. pdfcpu.ValidateSignatures receives the reader
+// next to the parsed context; every call it makes that takes an io.ReaderAt gets that parameter itself, not a
+// reader taken from the context (which may have been parsed from other bytes).
+func checkValidatedReaderIsTheCallers(c *Ctx) {
+	p, r := c.P, c.R
+	const fid = "pkg/pdfcpu.ValidateSignatures"
+	fn := p.Func(fid)
+	if fn == nil {
+		r.Bad("C27.R6", fid, "anchor", "", "UNRESOLVED-ANCHOR")
+		return
+	}
+	var ra *ssa.Parameter
+	for _, q := range fn.Params {
+		if strings.HasSuffix(q.Type().String(), "io.ReaderAt") {
+			ra = q
+		}
+	}
+	if ra == nil {
+		r.Bad("C27.R6", fid, "anchor", p.Pos(fn.Pos()), "UNRESOLVED-ANCHOR: no io.ReaderAt parameter")
+		return
+	}
+	n := 0
+	var visit func(f *ssa.Function)
+	visit = func(f *ssa.Function) {
+		eachInstr(f, func(_ *ssa.BasicBlock, _ int, i ssa.Instruction) {
+			call, ok := i.(ssa.CallInstruction)
+			if !ok {
+				return
+			}
+			for _, a := range call.Common().Args {
+				if !strings.HasSuffix(a.Type().String(), "io.ReaderAt") {
+					continue
+				}
+				n++
+				construct := fmt.Sprintf("reader argument#%d", n)
+				own := true
+				for _, l := range valueLeaves(a) {
+					v := l
+					// a closure of ValidateSignatures reads the captured parameter
+					if fv, ok := v.(*ssa.FreeVar); ok && fv.Name() == ra.Name() {
+						continue
+					}
+					if v != ssa.Value(ra) {
+						own = false
+					}
+				}
+				if own {
+					r.OK("C27.R6", FuncID(f), construct, p.Pos(call.Pos()), "the caller's reader is handed on", true)
+				} else {
+					r.Bad("C27.R6", FuncID(f), construct, p.Pos(call.Pos()), "the signed byte ranges are read from a reader other than the one the caller handed in ("+exprName(a)+"): a context parsed from the untampered file makes every modification of the bytes under validation invisible")
+				}
+			}
+		})
+		for _, a := range f.AnonFuncs {
+			visit(a)
+		}
+	}
+	visit(fn)
+	if n == 0 {
+		r.Bad("C27.R6", fid, "reader arguments", p.Pos(fn.Pos()), "UNDECIDED: ValidateSignatures hands its reader to nobody")
 	}
 }
